@@ -275,9 +275,10 @@ def pool_map(fn, items, chunksize=4, procs=None):
     procs = procs or NCPU
     if len(items) < 4 or procs == 1:
         return [fn(x) for x in items]
-    # fork is cheap, but a parent that has imported polars / rtflite carries their thread pools: children forked from
-    # it can hang for ever in a futex.  Such a parent (a code path that ran a worker function inline) spawns instead.
-    ctx = mp.get_context("spawn" if ("polars" in sys.modules or "rtflite" in sys.modules) else "fork")
+    # fork: workers inherit the module globals the property modules prepare in the parent (e.g. c15._BASE).  A parent
+    # that has run polars code carries its thread pool and forked children can hang — so no code path may run a worker
+    # function inline in the parent before a later pool (layfamily._in_pool, crosscorr._pool take care of theirs).
+    ctx = mp.get_context("fork")
     with ctx.Pool(procs) as pool:
         return pool.map(fn, items, chunksize=chunksize)
 
